@@ -25,6 +25,91 @@ def load_prop(pid: str):
 # ------------------------------------------------------------------ worker (one shard)
 
 
+def install_graph_monitors():
+    """Runtime monitors on the query methods of NxMixedGraph, for every property: each answer is compared with the definition evaluated directly on
+    the object's current networkx data (graph.directed / graph.undirected). Whatever an algorithm computes from a wrong answer of these methods is
+    wrong for THIS graph, so a difference is reported as a violation of the property under check, with the case as the failing input.
+    Returns the list the monitors append their complaints to."""
+    import networkx as nx
+    from y0.graph import NxMixedGraph
+
+    broken = []
+
+    def name(g):
+        return f"nodes {sorted(map(str, g.nodes()))}"
+
+    orig_topo = NxMixedGraph.topological_sort
+
+    def topological_sort(self):
+        o = list(orig_topo(self))
+        pos = {v: i for i, v in enumerate(o)}
+        if set(o) != set(self.directed.nodes()) or len(o) != len(pos) or any(pos[a] >= pos[b] for a, b in self.directed.edges()):
+            broken.append(f"topological_sort() = {[str(v) for v in o]} is not a topological order of the graph ({name(self)}, edges "
+                          f"{[(str(a), str(b)) for a, b in self.directed.edges()]})")
+        return o
+
+    orig_districts = NxMixedGraph.districts
+
+    def districts(self):
+        d = orig_districts(self)
+        want = {frozenset(c) for c in nx.connected_components(self.undirected)}
+        want |= {frozenset([v]) for v in self.directed.nodes() if v not in self.undirected}
+        if {frozenset(c) for c in d} != want:
+            broken.append(f"districts() = {sorted(sorted(map(str, c)) for c in d)} but the bidirected components of the graph are "
+                          f"{sorted(sorted(map(str, c)) for c in want)}")
+        return d
+
+    def closure(method, nxfun):
+        orig = getattr(NxMixedGraph, method)
+
+        def wrapped(self, sources):
+            srcs = list(sources) if not hasattr(sources, "name") else [sources]
+            out = orig(self, srcs)
+            try:
+                want = set(srcs)
+                for s_ in srcs:
+                    want |= nxfun(self.directed, s_)
+            except Exception:  # noqa: BLE001  -- a source that is not a node: the method's own business
+                return out
+            if set(out) != want:
+                broken.append(f"{method}({sorted(map(str, srcs))}) = {sorted(map(str, out))} but the closure over the directed edges is {sorted(map(str, want))}")
+            return out
+        setattr(NxMixedGraph, method, wrapped)
+
+    orig_dis = NxMixedGraph.disorient
+
+    def disorient(self):
+        d = orig_dis(self)
+        want_n = set(self.directed.nodes()) | set(self.undirected.nodes())
+        want_e = {frozenset(e) for e in self.directed.edges()} | {frozenset(e) for e in self.undirected.edges()}
+        if set(d.nodes()) != want_n or {frozenset(e) for e in d.edges()} != want_e:
+            broken.append(f"disorient() does not have the nodes and edges of the graph ({name(self)})")
+        return d
+
+    orig_sub = NxMixedGraph.subgraph
+
+    def subgraph(self, vertices):
+        vs = set(vertices) if not hasattr(vertices, "name") else {vertices}
+        out = orig_sub(self, vs)
+        keep = vs & set(self.directed.nodes())
+        want_d = {(a, b) for a, b in self.directed.edges() if a in keep and b in keep}
+        want_u = {frozenset((a, b)) for a, b in self.undirected.edges() if a in keep and b in keep}
+        if set(out.directed.edges()) != want_d or {frozenset(e) for e in out.undirected.edges()} != want_u or not keep <= set(out.nodes()):
+            broken.append(f"subgraph({sorted(map(str, vs))}) is not the induced subgraph of the graph as it is now ({name(self)})")
+        return out
+
+    try:
+        NxMixedGraph.topological_sort = topological_sort
+        NxMixedGraph.districts = districts
+        closure("ancestors_inclusive", nx.ancestors)
+        closure("descendants_inclusive", nx.descendants)
+        NxMixedGraph.disorient = disorient
+        NxMixedGraph.subgraph = subgraph
+    except Exception:  # noqa: BLE001
+        pass
+    return broken
+
+
 def worker_main(argv):
     pid, tier, seed, shard, nshards, n, outfile = argv[0], argv[1], int(argv[2]), int(argv[3]), int(argv[4]), int(argv[5]), argv[6]
     import warnings
@@ -36,13 +121,18 @@ def worker_main(argv):
     prop = load_prop(pid)
     rng = random.Random(f"{seed}/{shard}")
     cases = prop.gen(rng, tier, n, shard, nshards)
+    broken = install_graph_monitors()
     with open(outfile, "w") as fh:
         for case in cases:
             t0 = time.time()
+            del broken[:]
             try:
                 res = prop.run(case)
                 term = prop.coq(case, res)
                 err = None
+                if broken and not res.get("violation"):
+                    # a query method of NxMixedGraph answered something else than its definition on the graph AS IT IS NOW (e.g. from a stale cache)
+                    res["violation"], res["key"] = broken[0], f"{pid}/graph-query-inconsistent"
             except Exception as e:  # harness failure on this case (not an implementation verdict)
                 import traceback
 
@@ -187,7 +277,11 @@ def main_check(pid: str, tier: str) -> int:
             continue  # already reported above with this very input as the concrete failing input
         else:
             if verdict[2] not in search_cache:
-                search_cache[verdict[2]] = prop.search(random.Random(f"{seed}/search/{i}"), r["case"])
+                try:
+                    search_cache[verdict[2]] = prop.search(random.Random(f"{seed}/search/{i}"), r["case"])
+                except Exception as ex:  # noqa: BLE001  -- the implementation raised inside the search: no input is reported, the violation stands
+                    search_cache[verdict[2]] = None
+                    payload["search_raised"] = f"{type(ex).__name__}: {ex}"[:300]
             found = search_cache[verdict[2]]
             if found is not None and found.get("key", verdict[2]) in known:
                 # the search stumbled on a catalogued finding: that does not explain why the implementation departs from the model HERE
@@ -199,7 +293,10 @@ def main_check(pid: str, tier: str) -> int:
                 payload["no_failing_input_found"] = True
                 report(verdict[2], verdict[1] + " (no property-level failing input found)", payload)
     if proof_broken:
-        found = prop.search(random.Random(f"{seed}/search/proof"), None)
+        try:
+            found = prop.search(random.Random(f"{seed}/search/proof"), None)
+        except Exception:  # noqa: BLE001
+            found = None
         if found is not None and found.get("key") in known:
             found = None
         payload = {"kind": "proof-obligation", "obligation": f"coq/theories/Properties/{pid}.v", "log": proof.get("log", ""),
